@@ -43,6 +43,7 @@ From CG Require Import Spec.Printer.
 From CG Require Import Model.Ambiguity.
 From CG Require Import Model.Driver.
 From CG Require Model.DotOfRegex.
+From CG Require Import Model.EmitData.
 (* add new Require lines above this line *)
 Require Import ExtrOcamlBasic ExtrOcamlString.
 Extraction Language OCaml.
@@ -158,5 +159,6 @@ Separate Extraction
   Printer.erase_grammar
   Ambiguity.check_ambiguity_best_effort
   Driver.compile
+  EmitData.data_of_dfa
   (* add new roots above this line *)
   Prelude.pow2.
